@@ -86,4 +86,40 @@ lemma inv_history_aux (ops : List (Op R)) : ∀ (o : Obj R) (cached : Bool), o.I
         have : (o.step (.setRng g)).cache = o.cache := rfl
         rw [this, hnone] at hh; cases hh) hs.2
 
+/-! ### histories that leave one geometry alone -/
+
+lemma run_rng_of_noSetRng (post : List (Op R)) : ∀ (o : Obj R), (∀ op ∈ post, ∀ g, op ≠ Op.setRng g) →
+    (o.run post).M.rng = o.M.rng := by
+  induction post with
+  | nil => intro o _; rfl
+  | cons op t ih =>
+    intro o h
+    have ht : ∀ op' ∈ t, ∀ g, op' ≠ Op.setRng g := fun op' hm g => h op' (List.mem_cons_of_mem _ hm) g
+    show ((o.step op).run t).M.rng = _
+    rw [ih (o.step op) ht]
+    cases op with
+    | getMatrix => rw [step_getMatrix_M]
+    | setDom g => rfl
+    | setRng g => exact absurd rfl (h (.setRng g) List.mem_cons_self g)
+
+lemma run_dom_of_noSetDom (post : List (Op R)) : ∀ (o : Obj R), (∀ op ∈ post, ∀ g, op ≠ Op.setDom g) →
+    (o.run post).M.dom = o.M.dom := by
+  induction post with
+  | nil => intro o _; rfl
+  | cons op t ih =>
+    intro o h
+    have ht : ∀ op' ∈ t, ∀ g, op' ≠ Op.setDom g := fun op' hm g => h op' (List.mem_cons_of_mem _ hm) g
+    show ((o.step op).run t).M.dom = _
+    rw [ih (o.step op) ht]
+    cases op with
+    | getMatrix => rw [step_getMatrix_M]
+    | setRng g => rfl
+    | setDom g => exact absurd rfl (h (.setDom g) List.mem_cons_self g)
+
+lemma hstate_run_base (post : List (Op R)) : ∀ (s : HState R),
+    (s.run (post.map HOp.base)) = { o := s.o.run post, t := s.t } := by
+  induction post with
+  | nil => intro s; rfl
+  | cons op t ih => intro s; exact ih (s.step (.base op))
+
 end CuqiVerif.C07
